@@ -3,6 +3,7 @@ package eng
 import (
 	"sync"
 	stdatomic "sync/atomic"
+	"time"
 
 	furikoatomic "github.com/furiko-io/furiko/pkg/utils/atomic"
 )
@@ -16,14 +17,26 @@ import (
 // unlink the node under a concurrent reservation).  A correct counter passes for every schedule,
 // so this cannot raise a false alarm; it is a stress test, not a proof.
 func counterConservationStress(c *Ctx) {
-	const rounds = 300000
+	// several short trials: on a loaded machine one trial may happen to run the two goroutines
+	// almost sequentially; the time bound keeps the check fast
+	deadline := time.Now().Add(2500 * time.Millisecond)
+	for trial := 0; trial < 8 && time.Now().Before(deadline); trial++ {
+		if !counterConservationTrial(c, 400000) {
+			return
+		}
+	}
+}
+
+func counterConservationTrial(c *Ctx, rounds int) bool {
 	ctr := furikoatomic.NewCounter()
 	key := "uid-stress"
 	var adds, removes, outstanding int64
 	var wg sync.WaitGroup
-	wg.Add(2)
-	go func() { // the per-JobConfig queue worker
+	start := make(chan struct{})
+	wg.Add(3)
+	worker := func() { // a per-JobConfig queue worker reserving a slot
 		defer wg.Done()
+		<-start
 		for i := 0; i < rounds; i++ {
 			old := ctr.Get(key)
 			if old >= 1 { // maxConcurrency 1
@@ -34,20 +47,25 @@ func counterConservationStress(c *Ctx) {
 				stdatomic.AddInt64(&outstanding, 1)
 			}
 		}
-	}()
+	}
+	go worker()
+	go worker() // (the CAS lets only one of them win each slot)
 	go func() { // the store's informer handler: a started Job finishes
 		defer wg.Done()
-		for i := 0; i < rounds; i++ {
-			if stdatomic.LoadInt64(&outstanding) > 0 {
-				stdatomic.AddInt64(&outstanding, -1)
+		<-start
+		for i := 0; i < 2*rounds; i++ {
+			if n := stdatomic.LoadInt64(&outstanding); n > 0 && stdatomic.CompareAndSwapInt64(&outstanding, n, n-1) {
 				ctr.Remove(key)
 				stdatomic.AddInt64(&removes, 1)
 			}
 		}
 	}()
+	close(start)
 	wg.Wait()
-	c.Count("q.stress.counter-rounds")
+	c.Count("q.stress.counter-trials")
 	if got, want := ctr.Get(key), adds-removes; got != want {
 		c.Violate("C05", "counter-conservation", "after %d concurrent reservations and %d releases on one key the counter reads %d, expected %d: a reservation was lost (the store would under-count active Jobs)", adds, removes, got, want)
+		return false
 	}
+	return true
 }
